@@ -20,6 +20,7 @@ from . import c01, c10
 
 ID = "C08"
 BUDGET = {"quick": 6000, "thorough": 80000}
+FUZZ = {"thorough": 4000}  # coverage-guided stage: libFuzzer runs per worker (x16), see vk/fuzz.py
 RULE = (
     "Hypothesis: (rule other than the intentionally random ones, profile, configuration) as in "
     "C01/C10 plus a generated TRANSFORMATION: a candidate bijection onto names whose sort order and "
